@@ -322,6 +322,9 @@ def drive(mod, tier, seed):
         for fn in os.listdir(REPLAY_DIR):
             if fn.startswith(prop + "-"):
                 os.remove(os.path.join(REPLAY_DIR, fn))
+    from mc import cleanrefs
+
+    cleanrefs.ensure()
     plan = mod.plan(tier, seed)
     shards = plan["shards"]
     results = run_sharded(mod.__name__, shards, seed=seed, workers=plan.get("workers"), maxtasks=plan.get("maxtasksperchild"))
